@@ -1,5 +1,6 @@
 PROP = dict(
         coq="Properties/C06.v",
+        tie_coq=["Properties/TieC06.v"],
         workloads=[
             dict(name="amm-pure", go_test="TestC06Pure", runner="C06",
                  env=dict(quick=dict(VERIF_CASES=4000, VERIF_SMALL=4), thorough=dict(VERIF_CASES=60000, VERIF_SMALL=12))),
